@@ -4,9 +4,12 @@ never a mix.
 Two real threads on one Enforcer.  Family 'writer-paused': the reloading
 thread is suspended before its i-th source line inside oslo_policy (every i),
 a second thread takes one complete decision, the reload resumes.  Family
-'reader-paused': the deciding thread is suspended before its j-th line
-inside its own enforce(), a complete reload runs in the other thread, the
-decision resumes.  The schedule index is chosen by the solver over the whole
+'reader-paused': the deciding thread (whose own load step is the reload) is
+suspended before its j-th line inside enforce(), a complete reload runs in
+the other thread, the decision resumes.  Family 'decider-first': the decision
+starts while the files are settled, is suspended before its j-th line, the
+files are edited and a complete reload runs in the other thread, the decision
+resumes.  The schedule index is chosen by the solver over the whole
 range; the credentials' roles are symbolic.  Oracle: the decision equals the
 one under the complete old policy or under the complete new policy, and
 neither thread raises.
@@ -20,7 +23,8 @@ PROPERTY = 'C20'
 _N = {}         # number of line events per (scenario, family): measured once
 
 SCENARIOS = ['main-edit-with-dir-override', 'dir-edit',
-             'defaults-with-permissive-default-rule', 'deprecated-defaults']
+             'defaults-with-permissive-default-rule', 'deprecated-defaults',
+             'deprecated-defaults-both-names', 'alias-edit']
 
 
 def _setup(env, scenario):
@@ -69,6 +73,27 @@ def _setup(env, scenario):
             env.write('policy.yaml', {'old': 'role:ov2', 'other': 'role:o'})
         return defaults, ['new', 'keep', 'other'], edit, \
             ['ov1', 'ov2', 'dep', 'n', 'k', 'o']
+    if scenario == 'deprecated-defaults-both-names':
+        env.write('policy.yaml', {'old': 'role:ov1', 'other': 'role:o'})
+        dep = policy.DeprecatedRule('old', 'role:dep', deprecated_reason='r',
+                                    deprecated_since='s')
+        defaults = [policy.RuleDefault('new', 'role:n', deprecated_rule=dep),
+                    policy.RuleDefault('keep', 'role:k')]
+
+        def edit():
+            env.write('policy.yaml', {'old': 'role:ov2', 'new': 'role:nn',
+                                      'other': 'role:o'})
+        return defaults, ['new', 'keep', 'other'], edit, \
+            ['ov1', 'ov2', 'nn', 'dep', 'n', 'k', 'o']
+    if scenario == 'alias-edit':
+        env.write('policy.yaml', {'a:x': 'rule:b:y', 'b:y': '!',
+                                  'c:z': 'rule:a:x and rule:b:y'})
+        defaults = [policy.RuleDefault('e:w', 'role:df')]
+
+        def edit():
+            env.write('policy.yaml', {'a:x': 'role:adm', 'b:y': '@',
+                                      'c:z': 'rule:a:x and rule:b:y'})
+        return defaults, ['a:x', 'b:y', 'c:z'], edit, ['adm', 'df']
     raise ValueError(scenario)
 
 
@@ -96,7 +121,8 @@ def _count_lines(scenario, family, probe):
         defaults, probes, edit, roles = _setup(env, scenario)
         enf = env.enforcer(defaults=defaults)
         enf.load_rules()
-        edit()
+        if family != 'decider-first':
+            edit()
         if family == 'writer-paused':
             m = sched.Monitored(lambda: enf.load_rules(), pause_at=-1)
         else:
@@ -126,14 +152,22 @@ def run_schedule(ctx, scenario, family, probe, lo, hi):
         old = env.enforcer(defaults=defaults)
         d_old = bool(old.enforce(probe, {}, creds))
         g_old = _state(old, probes)
-        edit()
+        if family != 'decider-first':
+            edit()
         if family == 'writer-paused':
             mon = sched.Monitored(lambda: enf.load_rules(), pause_at=i)
             other = lambda: bool(enf.enforce(probe, {}, creds))  # noqa: E731
         else:
             mon = sched.Monitored(
                 lambda: bool(enf.enforce(probe, {}, creds)), pause_at=i)
-            other = lambda: enf.load_rules()  # noqa: E731
+            if family == 'decider-first':
+                # the decision starts on settled files; the edit and a
+                # complete reload happen while it is suspended
+                def other():
+                    edit()
+                    enf.load_rules()
+            else:
+                other = lambda: enf.load_rules()  # noqa: E731
         suspended = mon.start_until_paused()
         gov = None
         if suspended:
@@ -146,6 +180,8 @@ def run_schedule(ctx, scenario, family, probe, lo, hi):
                 ctx.cover('schedule:other-thread-blocked')
         else:
             h = {'result': other(), 'exc': None}
+        if family == 'decider-first' and not suspended:
+            pass
         for e in (mon.exc, h['exc']):
             if isinstance(e, BaseException) and not isinstance(e, Exception):
                 raise e             # engine control flow from the thread
@@ -190,14 +226,18 @@ def cubes_schedule(tier, seed):
     plan = [('main-edit-with-dir-override', ['a:x', 'c:z']),
             ('dir-edit', ['a:x']),
             ('defaults-with-permissive-default-rule', ['svc:delete']),
-            ('deprecated-defaults', ['new'])]
+            ('deprecated-defaults', ['new']),
+            ('deprecated-defaults-both-names', ['new']),
+            ('alias-edit', ['a:x', 'c:z'])]
     if tier != 'quick':
         plan = [('main-edit-with-dir-override', ['a:x', 'b:y', 'c:z', 'e:w']),
                 ('dir-edit', ['a:x', 'b:y', 'e:w']),
                 ('defaults-with-permissive-default-rule',
                  ['svc:delete', 'svc:get', 'svc:list']),
-                ('deprecated-defaults', ['new', 'keep', 'other'])]
-    fams = ['writer-paused', 'reader-paused']
+                ('deprecated-defaults', ['new', 'keep', 'other']),
+                ('deprecated-defaults-both-names', ['new', 'keep']),
+                ('alias-edit', ['a:x', 'b:y', 'c:z'])]
+    fams = ['writer-paused', 'reader-paused', 'decider-first']
     for sc, probes in plan:
         for fam in fams:
             for pr in probes:
@@ -210,7 +250,8 @@ def cubes_schedule(tier, seed):
 
 HARNESSES = {'schedule': {'fn': run_schedule, 'cubes': cubes_schedule,
                           'max_viol': 400}}
-REQUIRED_COVER = ['schedule:writer-paused', 'schedule:reader-paused']
+REQUIRED_COVER = ['schedule:writer-paused', 'schedule:reader-paused',
+                  'schedule:decider-first']
 
 
 def evidence(tier):
